@@ -25,7 +25,8 @@
     then runs the loop body of UID STORE; rows are updated / moved by
     (mailbox_id, uid); MoveMessageToMailbox reports "not moved" when the
     message already is in the destination; flags are compared as whole words
-    (hasFlag, parseFlagsToSet, instr(' '||flags||' ', ' \Seen ')).
+    (hasFlag, instr(' '||lower(flags)||' ', ' \seen ')), without regard to
+    ASCII case (fixes/06; CalculateNewFlags likewise, see Model/Flags.v).
     No proofs in this file. *)
 From Coq Require Import String Ascii List Bool Arith ZArith.
 From Raven Require Import Base.GoStr Model.Flags.
@@ -161,7 +162,7 @@ Definition store_uid (e : env) (s : st) (mb : Z) (q : seqset) (item : str) (new 
 (** COPY / UID COPY: one transaction; UIDs are taken from the destination's
     uid_next, which is written back at the end; any error rolls everything back *)
 Definition copy_flags (fl : list str) : list str :=
-  if mem RECENT (to_set fl) then fl else fl ++ [RECENT].
+  if mem_ci RECENT fl then fl else fl ++ [RECENT].
 (** handleUIDCopy: a UID that is not there is skipped *)
 Fixpoint copy_loop (ls : list link) (mb dest nu : Z) (uids : list Z) : option (list link * Z) :=
   match uids with
@@ -215,8 +216,8 @@ Definition append (s : st) (mb : Z) (fl : list str) : st :=
   | None => mkSt (links s) (bump (nexts s) mb) (next_msg s + 1)
   end.
 
-(** hasFlag(flags, q);  instr(' ' || flags || ' ', ' q ') > 0 *)
-Definition has_flag (fl : list str) (q : str) : bool := mem q fl.
+(** hasFlag(flags, q) (strings.EqualFold);  instr(' ' || lower(flags) || ' ', ' lower(q) ') > 0 *)
+Definition has_flag (fl : list str) (q : str) : bool := mem_ci q fl.
 Definition DELETED : str := S_ "\Deleted".
 Definition SEEN : str := S_ "\Seen".
 (** HandleExpunge / HandleClose *)
